@@ -228,11 +228,73 @@ def gen_case(rng, base, idx):
     return h.line(), h.tags
 
 
+def gen_warm_case(rng, base, idx):
+    """A history read through a WARM evaluator cache (expire-cache = 1 real second): cold read, mutations, warm read
+    (the cached status is served), sleep past the lifetime, read again (no flush: the entries have expired)."""
+    h = Hist(rng, base, {"intervals": rng.choice([1, 1, 2]), "expire": 604800, "mindist": 0})
+    h.clusters = h.clusters[:1]
+    c = h.clusters[0]
+    h.ngroups = rng.randint(1, 2)
+    h.ntopics = rng.randint(2, 3)
+    for t in range(1, h.ntopics + 1):
+        h.cnt.setdefault((c, t), rng.randint(1, 3))
+        h.dead[(c, t)] = set()
+        for p in range(h.cnt[(c, t)]):
+            h.broker(c, t, p)
+    # every group of the universe exists before the first read (a cached NOTFOUND for a group that appears later is
+    # refreshed in the background by goswarm: not deterministic), with at least two topics
+    for g in range(1, h.ngroups + 1):
+        for t in range(1, h.ntopics + 1):
+            for p in range(h.cnt[(c, t)]):
+                if (c, t, p) in h.boff and (rng.random() < 0.8 or p == 0):
+                    for _ in range(h.intervals if rng.random() < 0.7 else 1):
+                        h.order += 1
+                        h.now += 1
+                        b = h.boff[(c, t, p)]
+                        h.add("C", h.now, c, g, t, p, max(0, b - rng.choice([0, 3, 40])), h.order, h.now * 1000)
+    h.add("XC", h.now, 1)
+    h.add(rng.choice(["R", "RJ"]), h.now)
+    kinds = []
+    for _ in range(rng.randint(1, 2)):
+        k = rng.choice(["DT", "DGtopic", "DGtopic", "DT", "DGall", "GG", "commit", "broker"])
+        kinds.append(k)
+        h.now += 1
+        if k == "DT":
+            h.add("DT", h.now, c, rng.randint(1, h.ntopics))
+        elif k == "DGtopic":
+            h.add("DG", h.now, c, rng.randint(1, h.ngroups), rng.randint(1, h.ntopics))
+        elif k == "DGall":
+            h.add("DG", h.now, c, rng.randint(1, h.ngroups), 0)
+        elif k == "GG":
+            h.add("GG", h.now, c, rng.randint(1, h.ngroups))
+        elif k == "commit":
+            g, t = rng.randint(1, h.ngroups), rng.randint(1, h.ntopics)
+            p = rng.randrange(h.cnt[(c, t)])
+            if (c, t, p) in h.boff:
+                h.order += 1
+                h.add("C", h.now, c, g, t, p, max(0, h.boff[(c, t, p)] - rng.choice([0, 1, 7])), h.order, h.now * 1000)
+        else:
+            t = rng.randint(1, h.ntopics)
+            p = rng.randrange(h.cnt[(c, t)])
+            if (c, t, p) in h.boff:
+                h.boff[(c, t, p)] += rng.choice([1, 10, 100])
+                h.add("B", h.now, c, t, p, h.cnt[(c, t)], h.boff[(c, t, p)])
+    h.add(rng.choice(["RW", "RW", "RJW"]), h.now)
+    h.add("SL", h.now, 1250)
+    h.now += 2
+    h.add(rng.choice(["RW", "RJW"]), h.now)
+    if rng.random() < 0.4:
+        h.add("SL", h.now, 1250)
+        h.add("RW", h.now)
+    return h.line(), ["warm-cache"] + ["warm:" + k for k in kinds]
+
+
 # ------------------------------------------------------------------------------------------------------
 # parsing of a case and of an output line
 # ------------------------------------------------------------------------------------------------------
 
-ARITY = {"B": 5, "C": 7, "O": 6, "X": 2, "DT": 2, "GG": 2, "DG": 3, "R": 0, "RJ": 0}
+ARITY = {"B": 5, "C": 7, "O": 6, "X": 2, "DT": 2, "GG": 2, "DG": 3, "R": 0, "RJ": 0, "RW": 0, "RJW": 0, "XC": 1, "SL": 1}
+READS = ("R", "RJ", "RW", "RJW")
 
 
 def parse_case(line):
@@ -410,6 +472,8 @@ def oracle(case, impl_line):
     commits = {}         # (c,g,t,p) -> set of offsets ever sent
     owners = {}          # (c,g,t,p) -> set of owners ever sent
     ri = 0
+    lcache = 3600000     # expire-cache in ms (the probe's default)
+    cold = True          # no cache entry filled before the next read can still be valid
     for op, now, a in d["ops"]:
         if op == "B":
             last_b[(a[0], a[1], a[2])] = a[4]
@@ -420,7 +484,15 @@ def oracle(case, impl_line):
         elif op == "DT":
             for k in [k for k in last_b if k[0] == a[0] and k[1] == a[1]]:
                 del last_b[k]
-        elif op in ("R", "RJ"):
+        elif op == "XC":
+            lcache = a[0] * 1000
+            cold = True
+        elif op == "SL":
+            if a[0] > lcache:
+                cold = True
+        elif op in READS:
+            if op in ("R", "RJ"):
+                cold = True
             if ri >= len(reads):
                 bad.append(("panic", "read phase %d missing" % ri, {}))
                 break
@@ -430,12 +502,13 @@ def oracle(case, impl_line):
                 bad.append(("json-shape", "read phase %d: a documented JSON field / series is missing or malformed (%s)" % (ri, e), {}))
                 ri += 1
                 continue
-            bad += check_block(d, blk, ri, op, dict(last_b), commits, owners)
+            bad += check_block(d, blk, ri, op, dict(last_b), commits, owners, cold)
             ri += 1
+            cold = False
     return bad
 
 
-def check_block(d, blk, ri, op, last_b, commits, owners):
+def check_block(d, blk, ri, op, last_b, commits, owners, cold=True):
     bad = []
     M = blk["M"]
     if M == "PANIC":
@@ -443,7 +516,10 @@ def check_block(d, blk, ri, op, last_b, commits, owners):
     where = {"read": ri}
     gone_keys = set()
     # ---- outlives / listed ----
-    for (c, g), v in blk["GD"].items():
+    # A warm read (the evaluator cache may hold a status older than the last ingest / deletion, for at most expire-cache
+    # seconds - C05 bounds that) is judged on what does not go through the cache, and on /metrics agreeing with the lag
+    # endpoint (same cache) for the groups storage lists; "nothing outlives" is demanded of the cold reads.
+    for (c, g), v in (blk["GD"].items() if cold else []):
         gone = v is None and blk["GA"].get((c, g), {}).get("code") == 404
         if gone:
             ks = [k for k in M if k[1] == str(c) and k[2] == str(g)]
@@ -463,7 +539,7 @@ def check_block(d, blk, ri, op, last_b, commits, owners):
                             dict(where, group=(c, g))))
     for (c, t), v in blk["TD"].items():
         if v is None:
-            ks = [k for k in M if k[1] == str(c) and k[3] == str(t)]
+            ks = [k for k in M if k[1] == str(c) and k[3] == str(t) and (cold or k[0] == "TO")]
             gone_keys.update(ks)
             if ks:
                 bad.append(("outlives", "series %s for topic t%d of k%d which is not found" % (":".join(ks[0]), t, c),
@@ -472,8 +548,12 @@ def check_block(d, blk, ri, op, last_b, commits, owners):
                 bad.append(("listed", "topic list of k%d names t%d whose detail is 404" % (c, t), dict(where, topic=(c, t))))
     # ---- /metrics vs the JSON views of the same read phase ----
     exp, opt = {}, {}
+    unlisted = set()
     for (c, g), st in blk["GA"].items():
         if st["code"] != 200:
+            continue
+        if not cold and g not in (blk["GL"].get(c) or []):
+            unlisted.add((str(c), str(g)))           # a cached status of a group storage no longer lists: not scraped
             continue
         exp[("TL", str(c), str(g), "-", "-")] = fl(st["totallag"])
         exp[("ST", str(c), str(g), "-", "-")] = st["status"]
@@ -509,7 +589,7 @@ def check_block(d, blk, ri, op, last_b, commits, owners):
                 bad.append(("disagree", "series %s = %s but the JSON view of the same moment gives %d" % (":".join(k), M[k], opt[k]),
                             dict(where, key=k)))
             continue
-        if k not in exp and k not in gone_keys:
+        if k not in exp and k not in gone_keys and (k[1], k[2]) not in unlisted:
             nd += 1
             if nd <= 3:
                 bad.append(("disagree", "series %s = %s has no counterpart in the JSON views of the same moment" % (":".join(k), M[k]),
@@ -567,7 +647,7 @@ def shrink(case, fails):
             if budget <= 0:
                 break
             cand = ops[:i] + ops[i + 1:]
-            if not any(o[0] in ("R", "RJ") for o in cand):
+            if not any(o[0] in READS for o in cand):
                 continue
             budget -= 1
             if fails(render_case(d, cand)):
